@@ -316,6 +316,11 @@ class Interp:
             elif op in ('Lt', 'Le', 'Gt', 'Ge', 'Eq', 'Ne'):
                 st[k] = ('cmp', op, rv['a'], rv['b'])
                 return
+            elif op == 'Rem':
+                # a % m has the sign of a and magnitude below |m|
+                mm = max(abs(b.lo), abs(b.hi))
+                nanr = a.nan or b.nan or abs(a.lo) == INF or abs(a.hi) == INF or (b.lo <= 0 <= b.hi)
+                v = Iv(-mm if a.lo < 0 else 0.0, mm if a.hi > 0 else 0.0, nanr)
             else:
                 v = TOP
         elif kind == 'unop':
@@ -426,8 +431,32 @@ class Interp:
             elif name in ('ceil', 'floor', 'round', 'trunc'):
                 v = Iv(math.floor(iv[0].lo) if abs(iv[0].lo) != INF else iv[0].lo,
                        math.ceil(iv[0].hi) if abs(iv[0].hi) != INF else iv[0].hi, iv[0].nan)
-            elif name in ('is_finite', 'is_nan', 'is_infinite'):
+            elif name in ('is_finite', 'is_nan', 'is_infinite', 'is_sign_negative', 'is_sign_positive', 'partial_cmp', 'total_cmp'):
                 return
+            elif name == 'atan2':
+                v = Iv(-PI, PI, iv[0].nan or iv[1].nan)
+            elif name == 'atan':
+                v = Iv(-PI / 2, PI / 2, iv[0].nan)
+            elif name == 'asin':
+                v = Iv(-PI / 2, PI / 2, iv[0].nan or iv[0].lo < -1 or iv[0].hi > 1)
+            elif name == 'signum':
+                v = Iv(-1.0, 1.0, iv[0].nan)
+            elif name == 'hypot':
+                v = Iv(0.0, INF, iv[0].nan or iv[1].nan)
+            elif name == 'mul_add':
+                v = add(mul(iv[0], iv[1]), iv[2])
+            elif name == 'copysign':
+                m_ = absv(iv[0])
+                v = Iv(-m_.hi, m_.hi, iv[0].nan)
+            elif name in ('to_radians', 'to_degrees'):
+                f_ = PI / 180.0 if name == 'to_radians' else 180.0 / PI
+                v = mul(iv[0], const(f_))
+            elif name == 'exp':
+                v = Iv(0.0, INF, iv[0].nan)
+            elif name == 'recip':
+                v = div(const(1.0), iv[0])
+            elif name == 'powf':
+                v = Iv(-INF, INF, True)
             else:
                 v = TOP
         elif p in ('std::ops::Sub::sub', 'std::ops::Add::add', 'std::ops::Mul::mul', 'std::ops::Div::div') and 'f64' in (f.get('self_ty') or ''):
